@@ -360,6 +360,9 @@ impl<T: Payload> Scn<T> {
             events.append(&mut ctx.log);
         }
         self.main.finish();
+        // every handle is gone: let the drop probe (if any) go as well, so that the channel is freed before the
+        // ledger is read
+        payload::set_drop_probe(None);
         for (k, t) in &self.main_regs {
             self.main.log[*k].reg_t = Some(*t);
         }
